@@ -837,6 +837,14 @@ func (dm *DagModifier) Truncate(size int64) error {
 	}
 
 	dm.curNode = nnode
+
+	// Reads advance curWrOff but not writeStart. If they took the offset beyond
+	// the new end, go back to where the last write or seek left it (or to the
+	// new end): a following Write must not leave a hole for bytes that were only
+	// read. An offset that a write or seek put beyond the new end stays there.
+	if dm.curWrOff > uint64(size) {
+		dm.curWrOff = max(dm.writeStart, uint64(size))
+	}
 	return nil
 }
 
